@@ -607,7 +607,7 @@ func c03AltPrefix(c *Ctx, p *Prog) {
 	// on that path) — written out in place, or through a helper whose body does just that.  A helper that
 	// returns ModAlt *instead of* the modifiers it was given is fine only where it is given ModNone.
 	takers := altTakers(p)
-	for _, want := range []string{"parseRune", "parseFunctionKey"} {
+	for _, want := range []string{"parseRune", "parseFunctionKey", collect.Name()} {
 		fn := p.Fn("tcell:(*tScreen)." + want)
 		n, bad := 0, ""
 		if fn != nil {
